@@ -44,10 +44,17 @@ class Ctx:
         """fail closed when a rule matched fewer instances than were confirmed by hand"""
         self.floors.append((rule, minimum))
 
+    def defer_infra(self, msg):
+        """an imported property's rules could not run (anchor / role problem): fail closed at the end -- unless this property's own rules already report a violation,
+        which takes precedence (the construct that broke the anchor usually IS the violation)"""
+        self.deferred_infra = getattr(self, "deferred_infra", []) + [msg]
+
     def check_floors(self):
         """deferred: a reported violation takes precedence over a missing-instance alarm"""
         if any(not o["ok"] for o in self.obs):
             return
+        if getattr(self, "deferred_infra", None):
+            raise F.InfraError(self.deferred_infra[0])
         for rule, minimum in self.floors:
             n = self.counts.get(rule, 0)
             if n < minimum:
